@@ -549,7 +549,7 @@ fn gen_synth(rng: &mut Rng) -> String {
 		}
 		if spec.soi < spec.soh { spec.soi = spec.soh; }
 	}
-	let img = Image { len, fill, hdr: hdr_override.unwrap_or_else(|| spec.header_bytes()), pokes: pokes.into_iter().filter(|(o, _)| *o < len).collect() };
+	let img = Image { len, fill, hdr: hdr_override.unwrap_or_else(|| scrambled_header(&spec, rng)), pokes: pokes.into_iter().filter(|(o, _)| *o < len).collect() };
 	let names: [&[u8]; 4] = [b"CallA1", b"x", b"", b"?nPasswds@@3HA"];
 	let qs = gen_queries(rng, &edges, spec.secs.len(), &names, 24);
 	format!("wj src=synth view={} place={} {} q={}", view as u8, place, img.encode(), join(&qs, ","))
@@ -605,6 +605,32 @@ fn gen_demo(rng: &mut Rng) -> String {
 				let v = rng.below(n as u64 + 2) as u16;
 				pokes.push((t + 2 * i, v.to_le_bytes().to_vec()));
 			}
+		}
+	}
+	// targeted shapes (one case in five): table combinations the random field pokes almost never produce
+	if rng.chance(1, 5) {
+		let exp = { let va = r32(&b, dd); if va != 0 { to_off(va) } else { None } };
+		let dbg = { let (va, sz) = (r32(&b, dd + 48), r32(&b, dd + 52)); if va != 0 { to_off(va).map(|o| (o, sz as usize / 28)) } else { None } };
+		match rng.below(6) {
+			// exactly one of the three export tables null (or two), counts kept: the wrapper iterators must mirror the Null-as-empty rule
+			0 | 1 | 2 => if let Some(o) = exp {
+				for f in [28usize, 32, 36] { if rng.chance(2, 5) { pokes.push((o + f, 0u32.to_le_bytes().to_vec())); } }
+				if rng.chance(1, 3) { let n = r32(&b, o + 24); pokes.push((o + 24, (*rng.pick(&[0u32, 1, n.wrapping_add(1), n.wrapping_sub(1), 0xFFFF_FFFF])).to_le_bytes().to_vec())); }
+				if rng.chance(1, 4) { let n = r32(&b, o + 20); pokes.push((o + 20, (*rng.pick(&[0u32, 1, n.wrapping_add(1), n.wrapping_sub(1)])).to_le_bytes().to_vec())); }
+			},
+			// two CodeView entries: the valid one moved to slot 1 (or the last slot), slot 0 keeps the type but is damaged
+			_ => if let Some((o, n)) = dbg {
+				if n >= 2 && o + 28 * n <= b.len() {
+					let dst = if rng.chance(1, 2) { 1 } else { n - 1 };
+					pokes.push((o + 28 * dst, b[o..o + 28].to_vec()));
+					match rng.below(4) {
+						0 => pokes.push((o + 16, (*rng.pick(&[0u32, 4, 8, 15])).to_le_bytes().to_vec())),          // SizeOfData too small
+						1 => { pokes.push((o + 20, 0xFFFF_FFF0u32.to_le_bytes().to_vec())); pokes.push((o + 24, 0xFFFF_FFF0u32.to_le_bytes().to_vec())); }, // data out of bounds
+						2 => { let a = r32(&b, o + 20); let p2 = r32(&b, o + 24); pokes.push((o + 20, (a + 1).to_le_bytes().to_vec())); pokes.push((o + 24, (p2 + 1).to_le_bytes().to_vec())); }, // misaligned
+						_ => { let p2 = if view { r32(&b, o + 20) as usize } else { r32(&b, o + 24) as usize }; if p2 + 4 <= b.len() { pokes.push((p2, b"XXXX".to_vec())); } }, // signature destroyed (shared by both entries)
+					}
+				}
+			},
 		}
 	}
 	let npokes = match rng.below(10) { 0 | 1 | 2 => 0, 3 | 4 | 5 | 6 => 1, 7 | 8 => 2, _ => rng.range(3, 6) };
